@@ -63,6 +63,9 @@ def random_calls(rng: random.Random):
     return calls
 
 
+_QID = [0]
+
+
 def finder_calls(rng: random.Random, mol, seg):
     """alignments and break points for the two finders; returns the calls they emit"""
     out = []
@@ -91,10 +94,18 @@ def finder_calls(rng: random.Random, mol, seg):
             qry = SimpleNamespace(positions=qpos)
             pairs = [SimpleNamespace(reference=SimpleNamespace(siteId=r0 + j), query=SimpleNamespace(siteId=j + 1))
                      for j in range(n)]
-        al = SimpleNamespace(queryId=7, referenceId=2, alignedPairs=pairs)
-        for which, finder, brk in (("molecule", mol.look_for_indels_in_breakage, {7: [b, pairs[b]]}),
-                                   ("segment", seg.look_for_indels_in_breakage, {7: [[b, "x"]]})):
-            res = finder({2: [al]}, {2: ref}, {7: qry}, brk)
+        _QID[0] += 1
+        qid = 100 + _QID[0]          # every invocation is fed another molecule
+        al = SimpleNamespace(queryId=qid, referenceId=2, alignedPairs=pairs)
+        for which, finder, brk in (("molecule", mol.look_for_indels_in_breakage, {qid: [b, pairs[b]]}),
+                                   ("segment", seg.look_for_indels_in_breakage, {qid: [[b, "x"]]})):
+            res = finder({2: [al]}, {2: ref}, {qid: qry}, brk)
+            got = []
+            for typ, lines in res.items():
+                for ln in lines:
+                    got.append({"type": ln[0], "chr": int(ln[1]), "rs": int(ln[2]), "re": int(ln[3]), "qid": int(ln[4]),
+                                "qs": int(ln[5]), "qe": int(ln[6]), "len": int(ln[7])})
+            out.append({"kind": "finder", "finder": which, "calls": got, "fed": {"qid": qid, "chr": 2, "nbreak": 1}})
             for typ, lines in res.items():
                 for ln in lines:
                     out.append({"kind": "call", "finder": which,
@@ -217,6 +228,8 @@ def run(ctx: Ctx):
     for _ in range(60 if quick else 1500):
         fc += finder_calls(rng, mol, seg)
     for c in fc:
+        if c["kind"] != "call":
+            continue
         listed = c["call"].pop("listed_under")
         if listed != c["call"]["type"]:
             c["call"]["type"] = f"{c['call']['type']}_listed_under_{listed}"
